@@ -47,23 +47,37 @@ Inductive thenable :=
 
 Inductive ckind := CAll | CAllSettled | CRace | CAny.
 
+(* async function(){ log(id); [try {] x = await v1; log(id,x); x = await v2; log(id,x); ...; return v | throw v
+                     [} catch(e) { log(id+500, e) }] } *)
+Inductive aend := ARet (v : val) | AThrow (v : val).
+
 Inductive op :=
 | ONew                                              (* new Promise / r.NewPromise(): PN k with pair RU k *)
 | ORes (pr : nat) (v : val) | ORej (pr : nat) (v : val)
 | OThen (p : nat) (onF onR : option script)         (* PN p .then(onF,onR); derived promise gets the next name *)
-| OComb (k : ckind) (elems : list val).             (* Promise.k([elems]); result gets the next name *)
+| OComb (k : ckind) (elems : list val)              (* Promise.k([elems]); result gets the next name *)
+| OAsync (id : nat) (catch : bool) (awaits : list val) (e : aend)   (* call an async function; its promise gets the next name *)
+| OFinally (p : nat) (fin : script).                (* PN p .finally(fin); derived promise gets the next name *)
 
 (* ---------------------------------------------------------------------------------------------- *)
 (* machine state *)
 
 Inductive pstate := Pending | Fulfilled | Rejected.
 
+(* the suspended rest of an async function body = the state of goja's asyncRunner (promiseCap + the
+   generator context) = the continuation closures of the spec's Await *)
+Record abody := mkA { ab_cap : prid; ab_id : nat; ab_catch : bool; ab_rest : list val; ab_end : aend }.
+
 Inductive handler :=
 | HNone | HUser (s : script)
 | HCapRes (pr : prid) | HCapRej (pr : prid)         (* a resolving function used directly as handler *)
-| HElemF (c i : nat) | HElemR (c i : nat).          (* per-element functions of all/allSettled/any *)
+| HElemF (c i : nat) | HElemR (c i : nat)           (* per-element functions of all/allSettled/any *)
+| HAsyncF (b : abody) | HAsyncR (b : abody)         (* asyncRunner.onFulfilled / onRejected *)
+| HFinF (s : script) | HFinR (s : script)           (* thenFinally / catchFinally of Promise.prototype.finally *)
+| HThunkVal (v : val) | HThunkThrow (v : val).      (* valueThunk / thrower *)
 
-Record reaction := mkR { r_id : nat; r_cap : prid; r_ful : bool; r_handler : handler }.
+(* r_cap = None: a reaction without result capability (await) *)
+Record reaction := mkR { r_id : nat; r_cap : option prid; r_ful : bool; r_handler : handler }.
 
 Inductive jobk := JReact (r : reaction) (arg : val) | JThenable (p : pid) (x : val).
 Record job := mkJ { j_id : nat; j_kind : jobk }.
@@ -234,7 +248,7 @@ Definition new_pair_for (p : pid) (s : state) : prid * state :=
   (RI n, new_pair (RI n) p s).
 
 (* performPromiseThen + addReactions *)
-Definition perform_then (p : pid) (onF onR : handler) (cap : prid) (s : state) : state :=
+Definition perform_then (p : pid) (onF onR : handler) (cap : option prid) (s : state) : state :=
   match get_prom p s with
   | None => s
   | Some pr =>
@@ -297,7 +311,7 @@ Definition comb_elem (k : ckind) (cap : prid) (c : nat) (s : state) (x : val) : 
   | CRace =>
       let '(np, s) := promise_resolve x s in
       let '(_, dcap, s) := new_cap_int s in
-      perform_then np (HCapRes cap) (HCapRej cap) dcap s
+      perform_then np (HCapRes cap) (HCapRej cap) (Some dcap) s
   | _ =>
       match get_comb c s with
       | None => s
@@ -308,9 +322,9 @@ Definition comb_elem (k : ckind) (cap : prid) (c : nat) (s : state) (x : val) : 
           let s := upd_comb c (fun cb => mkC (c_kind cb) (c_cap cb) (c_vals cb) (S (c_rem cb)) (c_called cb)) s in
           let '(_, dcap, s) := new_cap_int s in
           match k with
-          | CAll => perform_then np (HElemF c i) (HCapRej cap) dcap s
-          | CAllSettled => perform_then np (HElemF c i) (HElemR c i) dcap s
-          | _ => perform_then np (HCapRes cap) (HElemR c i) dcap s
+          | CAll => perform_then np (HElemF c i) (HCapRej cap) (Some dcap) s
+          | CAllSettled => perform_then np (HElemF c i) (HElemR c i) (Some dcap) s
+          | _ => perform_then np (HCapRes cap) (HElemR c i) (Some dcap) s
           end
       end
   end.
@@ -321,6 +335,33 @@ Definition exec_comb (k : ckind) (elems : list val) (s : state) : state :=
   let s := set_combs (combs s ++ [mkC k cap [] 1 []]) s in
   let s := fold_left (comb_elem k cap c) elems s in
   match k with CRace => s | _ => comb_dec c s end.
+
+(* ---------------------------------------------------------------------------------------------- *)
+(* async functions.  asyncRunner.step (func.go) / AsyncFunctionStart + Await (27.7.5):
+   run the body up to the next await or to its end.
+   await v : promise := PromiseResolve(%Promise%, v); PerformPromiseThen(promise, onFulfilled, onRejected)
+             with NO result capability; the continuation runs as the reaction job.
+   end     : promiseCap.resolve(result) — through the resolve function, so returning a promise costs
+             the thenable job and its then job — or promiseCap.reject(exception). *)
+
+(* an exception inside the body: caught by the body's own try/catch (logs, then the function
+   completes normally with undefined) or it rejects the function's promise *)
+Definition async_throw (b : abody) (e : val) (s : state) : state :=
+  if ab_catch b then resolve_fn (ab_cap b) VUndef (set_log (log s ++ [(500 + ab_id b, e)]) s)
+  else reject_fn (ab_cap b) e s.
+
+Definition async_step (b : abody) (s : state) : state :=
+  match ab_rest b with
+  | v :: rest =>
+      let '(p, s) := promise_resolve v s in
+      let b' := mkA (ab_cap b) (ab_id b) (ab_catch b) rest (ab_end b) in
+      perform_then p (HAsyncF b') (HAsyncR b') None s
+  | [] =>
+      match ab_end b with
+      | ARet v => resolve_fn (ab_cap b) v s
+      | AThrow v => async_throw b v s
+      end
+  end.
 
 (* ---------------------------------------------------------------------------------------------- *)
 (* top-level operations of a run *)
@@ -338,9 +379,19 @@ Definition exec_op (s : state) (o : op) : state :=
       | None => s
       | Some _ =>
           let '(_, cap, s) := new_cap_named false s in
-          perform_then (PN p) (opt_handler onF) (opt_handler onR) cap s
+          perform_then (PN p) (opt_handler onF) (opt_handler onR) (Some cap) s
       end
   | OComb k elems => exec_comb k elems s
+  | OAsync id catch awaits e =>                       (* asyncRunner.start *)
+      let '(_, cap, s) := new_cap_named false s in
+      async_step (mkA cap id catch awaits e) (set_log (log s ++ [(id, VUndef)]) s)
+  | OFinally p fin =>
+      match get_prom (PN p) s with
+      | None => s
+      | Some _ =>
+          let '(_, cap, s) := new_cap_named false s in
+          perform_then (PN p) (HFinF fin) (HFinR fin) (Some cap) s
+      end
   end.
 
 Definition run_ops (ops : list op) (s : state) : state := fold_left exec_op ops s.
@@ -360,32 +411,62 @@ Fixpoint exec_tsteps (pr : prid) (steps : list tstep) (s : state) : state :=
   | TThrow v :: _ => reject_fn pr v s
   end.
 
+(* reaction.capability.resolve / reject; nothing if there is no capability *)
+Definition cres (c : option prid) (v : val) (s : state) : state :=
+  match c with Some r => resolve_fn r v s | None => s end.
+Definition crej (c : option prid) (v : val) (s : state) : state :=
+  match c with Some r => reject_fn r v s | None => s end.
+
+(* thenFinally / catchFinally: result := onFinally(); promise := PromiseResolve(C, result);
+   return promise.then(valueThunk | thrower) *)
+Definition exec_finally (sc : script) (ful : bool) (arg : val) (cap : option prid) (s : state) : state :=
+  let s := set_log (log s ++ [(s_id sc, VUndef)]) s in
+  let s := fold_left exec_act (s_acts sc) s in
+  let continue (v : val) (s : state) : state :=
+    let '(np, s) := promise_resolve v s in
+    let '(d, dcap, s) := new_cap_int s in
+    let s := perform_then np (if ful then HThunkVal arg else HThunkThrow arg) HNone (Some dcap) s in
+    cres cap (VProm d) s in
+  match s_ret sc with
+  | RetVal v => continue v s
+  | RetArg => continue VUndef s                      (* onFinally is called without arguments *)
+  | Throw v => crej cap v s
+  | Intr => set_intr true s
+  end.
+
 Definition exec_job (j : job) (s : state) : state :=
   match j_kind j with
   | JReact r arg =>                                  (* newPromiseReactionJob *)
       let cap := r_cap r in
       match r_handler r with
-      | HNone => if r_ful r then resolve_fn cap arg s else reject_fn cap arg s
+      | HNone => if r_ful r then cres cap arg s else crej cap arg s
       | HUser sc =>
           let s := set_log (log s ++ [(s_id sc, arg)]) s in
           let s := fold_left exec_act (s_acts sc) s in
           match s_ret sc with
-          | RetVal v => resolve_fn cap v s
-          | RetArg => resolve_fn cap arg s
-          | Throw v => reject_fn cap v s
+          | RetVal v => cres cap v s
+          | RetArg => cres cap arg s
+          | Throw v => crej cap v s
           | Intr => set_intr true s                  (* uncatchable: unwinds through the job and leave() *)
           end
-      | HCapRes pr => resolve_fn cap VUndef (resolve_fn pr arg s)
-      | HCapRej pr => resolve_fn cap VUndef (reject_fn pr arg s)
-      | HElemF c i => resolve_fn cap VUndef (elem_fn c i true arg s)
-      | HElemR c i => resolve_fn cap VUndef (elem_fn c i false arg s)
+      | HCapRes pr => cres cap VUndef (resolve_fn pr arg s)
+      | HCapRej pr => cres cap VUndef (reject_fn pr arg s)
+      | HElemF c i => cres cap VUndef (elem_fn c i true arg s)
+      | HElemR c i => cres cap VUndef (elem_fn c i false arg s)
+      (* onFulfilled: gen.next(arg) resumes the body after the await; onRejected: gen.nextThrow(arg) *)
+      | HAsyncF b => cres cap VUndef (async_step b (set_log (log s ++ [(ab_id b, arg)]) s))
+      | HAsyncR b => cres cap VUndef (async_throw b arg s)
+      | HFinF sc => exec_finally sc true arg cap s
+      | HFinR sc => exec_finally sc false arg cap s
+      | HThunkVal v => cres cap v s
+      | HThunkThrow v => crej cap v s
       end
   | JThenable p x =>                                 (* newPromiseResolveThenableJob *)
       let '(pr, s) := new_pair_for p s in
       match x with
       | VProm q =>                                   (* q.then(resolve, reject), builtin then *)
           let '(_, dcap, s) := new_cap_int s in
-          perform_then q (HCapRes pr) (HCapRej pr) dcap s
+          perform_then q (HCapRes pr) (HCapRej pr) (Some dcap) s
       | VThen t =>
           match nth_error T t with
           | Some (TFun id steps) => exec_tsteps pr steps (set_log (log s ++ [(id, VUndef)]) s)
